@@ -10,8 +10,8 @@ import pipeline
 from props import _ser
 
 CLAUSES = ["C13_pure", "C13_repeat", "C13_twin"]
-EXPORTERS_Q = ["json", "xml", "provn", "rdf", "dot", "graph", "unified", "flattened", "eq", "hash"]
-EXPORTERS_T = EXPORTERS_Q + ["xmlforce", "jsonsort", "dotlabels", "getprovn"]
+EXPORTERS_Q = ["json", "xml", "xmlforce", "provn", "rdf", "dot", "graph", "unified", "flattened", "eq", "eqother", "hash"]
+EXPORTERS_T = EXPORTERS_Q + ["jsonsort", "dotlabels", "getprovn"]
 
 
 def run(tier, seed):
